@@ -399,3 +399,17 @@ package git
 //gvc:  sink SetReference requires saved: arg0 == prev && prev != nil
 //gvc:  sink RemoveReference requires unborn: prev == nil && strid(arg0) == strid(prevName)
 //gvc:end
+
+// Property C29 for Commit: with All the index is rewritten (tracked files are
+// staged) before the commit can be refused as empty; a commit -a that is
+// refused puts the index back as it found it (git builds commit -a in a
+// temporary index and rolls it back).
+//gvc:func (*Worktree).Commit
+//gvc:  props C29
+//gvc:  theory int
+//gvc:  opt coarse
+//gvc:  opt frame args
+//gvc:  results h err
+//gvc:  requires nn: w != nil && w.r != nil
+//gvc:  ensures restored: err != nil && calls("autoAddModifiedAndDeleted") == 1 && lastres("autoAddModifiedAndDeleted") == nil ==> calls("SetIndex") >= 1
+//gvc:end
